@@ -169,6 +169,9 @@ pub struct SimState {
     // output
     pub out_partial: String,
     pub out_lines: Vec<String>,
+    /// per output line: how many input chunks had been handed to the engine when it was written
+    pub out_line_after_chunks: Vec<u64>,
+    pub chunks_delivered: u64,
     // exit
     pub exit_code: Option<i32>,
     // rng
@@ -215,6 +218,8 @@ impl SimState {
             eof_reads: 0,
             max_eof_reads: 8,
             delivered: vec![],
+            out_line_after_chunks: vec![],
+            chunks_delivered: 0,
             out_partial: String::new(),
             out_lines: vec![],
             exit_code: None,
@@ -408,6 +413,7 @@ impl Sim for World {
                 }
                 buf[..b.len()].copy_from_slice(&b);
                 st.delivered.extend_from_slice(&b);
+                st.chunks_delivered += 1;
                 let text = String::from_utf8_lossy(&b).replace('\n', "\\n").replace('\r', "\\r");
                 st.ev(&format!("in {}", text));
                 Ok(b.len())
@@ -450,6 +456,8 @@ impl Sim for World {
                 }
             }
             st.out_lines.push(line);
+            let c = st.chunks_delivered;
+            st.out_line_after_chunks.push(c);
         }
     }
 
